@@ -1,6 +1,35 @@
 """C07 (partial) — aggregate state split/merge/retract: the kernel that emits a prefix of the groups (EmitTo::First index shifting)."""
-LEVEL = "model_checking"
-VERUS = []
+LEVEL = "proof"
+FU = "datafusion/common/src/utils/mod.rs"
+FG = "datafusion/expr-common/src/groups_accumulator.rs"
+VERUS = [dict(
+    name="emit_prefix",
+    uses="use vstd::prelude::*;\n",
+    prelude="prelude.rs", proofs="proofs.rs", witness="witness.rs", rlimit=30, min_verified=2, twins=[], std_specs=False,
+    items=[
+        dict(file=FU, path=["fn split_vec_min_alloc"], ret="r",
+             edits=[dict(rule="R13", find="vec.drain(0..n).collect()", replace="drain_prefix_collect(vec, n)")],
+             contract="""    requires n <= old(vec)@.len(), old(vec)@.len() <= isize::MAX,
+    ensures
+        // exactly the first n values, in order, are handed out; exactly the others, in order, stay (renumbered from 0)
+        r@ == old(vec)@.subrange(0, n as int),
+        final(vec)@ == old(vec)@.subrange(n as int, old(vec)@.len() as int),"""),
+        dict(file=FG, path=["enum EmitTo"]),
+        dict(file=FG, path=["impl EmitTo", "fn take_needed"], wrap="impl EmitTo", ret="r",
+             edits=[dict(rule="R20", find="std::mem::take(v)", replace="std::mem::replace(v, Vec::new())")],
+             contract="""    requires old(v)@.len() <= isize::MAX, self matches EmitTo::First(n) ==> n <= old(v)@.len(),
+    ensures
+        // what is emitted followed by what is kept is the old state: nothing lost, duplicated or reordered
+        r@ + final(v)@ == old(v)@,
+        match self { EmitTo::All => final(v)@.len() == 0, EmitTo::First(n) => r@.len() == n },"""),
+    ],
+    mutants=[
+        dict(name="split_keeps_prefix", item="split_vec_min_alloc", find="std::mem::replace(vec, remaining)", replace="remaining"),
+        dict(name="split_off_by_one", item="split_vec_min_alloc", find="vec.split_off(n)", replace="vec.split_off(n - 1)"),
+        dict(name="drain_off_by_one", item="split_vec_min_alloc", find="drain_prefix_collect(vec, n)", replace="drain_prefix_collect(vec, n / 2)"),
+        dict(name="first_emits_one_more", item="take_needed", find="split_vec_min_alloc(v, *n)", replace="split_vec_min_alloc(v, *n / 2)"),
+    ],
+)]
 KANI = [
     dict(package="datafusion-common", module="common/utils.rs", timeout=900, harnesses=[
         dict(name="c07_split_vec_min_alloc_bounded", complete=False, bound="vectors of <= 5 symbolic values, every n <= len (both strategies: drain+collect / split_off+replace)",
@@ -11,8 +40,8 @@ KANI = [
              what="EmitTo::take_needed: emits exactly the first groups (all / n) in order and keeps the remaining groups' state in order (the index shift of EmitTo::First)"),
     ]),
 ]
-TRUSTED = ["Kani 0.68 / CBMC 6.11"]
-ASSUMPTIONS = ["bounded: vector length <= 5 (the code is oblivious to the element values; the two strategies are selected by n*2 <= len)"]
+TRUSTED = ["Verus 0.2026.09.13 / Z3", "Kani 0.68 / CBMC 6.11", "vstd specification of Vec::split_off / Vec::len / Vec::new", "ASSUMED specification of std::mem::replace (prelude.rs)", "ASSUMED contract of the iterator expression vec.drain(0..n).collect() (R13, prelude.rs: drain_prefix_collect); the bounded Kani harness runs the real expression for len <= 5", "R20: std::mem::take(v) -> std::mem::replace(v, Vec::new()) (Vec::default() is Vec::new())"]
+ASSUMPTIONS = ["preconditions from the call sites: n <= len (emit_to comes from GroupOrdering / the group count), len <= isize::MAX (Vec invariant for non-zero-sized state)", "Kani cross-check of the assumed drain contract is bounded: vector length <= 5"]
 NOT_COVERED = ["every accumulator's update / merge / state / retract arithmetic, NullState / accumulate helpers (Arrow bit buffers), partial/final agreement, sliding-window retraction",
                "n > len (caller error), capacity behaviour"]
 EXPLANATION = "Emitting the first n groups must hand out exactly the state of groups 0..n and renumber the rest down from zero; every GroupsAccumulator does this through EmitTo::take_needed."
